@@ -286,19 +286,26 @@ def run_one(ctx, d, seed, strategy, norm, tie=False, underscore=False, threads=1
     return out
 
 
-def run_multisample(ctx, d, seed):
-    """two experiments in one invocation: the combined_* tables (src/stats.py) must carry, per sample column, exactly the
-    values of that sample's own tables"""
-    sub = os.path.join(d, "ms_%d" % seed)
+def run_multisample(ctx, d, seed, n_exp=2):
+    """two or three experiments in one invocation: the combined_* tables (src/stats.py) must carry, per sample column,
+    exactly the values of that sample's own tables, an empty cell exactly where the sample has no row, the experiment
+    names as header, no statistics line of a counts file"""
+    sub = os.path.join(d, "ms_%d_%d" % (seed, n_exp))
     os.makedirs(sub, exist_ok=True)
     ds = G.c02_dataset(seed)
-    p1 = ds.write(os.path.join(sub, "data"), bam_name="a.bam")
-    half = [r for i, r in enumerate(ds.reads) if i % 2 == 0]
-    p2 = ds.write(os.path.join(sub, "data"), bam_name="b.bam", reads=half, write_ref=False)
+    names = ["S1", "S2", "S3"][:n_exp]
+    paths = []
+    for j, nm in enumerate(names):
+        if j == 0:
+            paths.append(ds.write(os.path.join(sub, "data"), bam_name="%s.bam" % nm.lower()))
+        else:
+            part = [r for i, r in enumerate(ds.reads) if i % (j + 1) == 0]
+            paths.append(ds.write(os.path.join(sub, "data"), bam_name="%s.bam" % nm.lower(), reads=part, write_ref=False))
+    p1 = paths[0]
     lst = os.path.join(sub, "list.txt")
     with open(lst, "w") as f:
-        f.write("#S1\n%s\n#S2\n%s\n" % (p1["bam"], p2["bam"]))
-    base = {"mode": "pipeline_multisample", "ds_seed": seed}
+        f.write("".join("#%s\n%s\n" % (nm, p["bam"]) for nm, p in zip(names, paths)))
+    base = {"mode": "pipeline_multisample", "ds_seed": seed, "n_exp": n_exp}
     out = os.path.join(sub, "out")
     rc, log = P.run_isoquant(out, ["--threads", "1", "--bam_list", lst, "--reference", p1["ref"], "--data_type", "nanopore",
                                    "--no_gzip", "--genedb", p1["gtf"], "--complete_genedb"])
@@ -314,15 +321,27 @@ def run_multisample(ctx, d, seed):
         with open(comb) as f:
             lines = [l.rstrip("\n").split("\t") for l in f if l.strip()]
         hdr, body = lines[0], lines[1:]
-        for col, smp in ((1, "S1"), (2, "S2")):
+        if hdr != ["#feature_id"] + names:
+            fails.append(("combined_table_differs", dict(base, table=what), "header %s" % hdr))
+            continue
+        ids = [r[0] for r in body]
+        if len(set(ids)) != len(ids):
+            fails.append(("combined_table_differs", dict(base, table=what), "a feature has two rows"))
+        union = set()
+        for col, smp in enumerate(names, start=1):
             rows, stats = parse_table(os.path.join(out, smp, "%s.%s" % (smp, suffix)))
             own = {f_: Decimal(v) for f_, v in rows}
             if "tpm" in what and "__unassigned" in stats:
                 own["__unassigned"] = Decimal(stats["__unassigned"])
+            union |= set(own)
             got = {r[0]: Decimal(r[col]) for r in body if len(r) > col and r[col] != ""}
-            if hdr[col] != smp or got != own:
+            if got != own:
                 diff = sorted(set(got.items()) ^ set(own.items()))[:4]
                 fails.append(("combined_table_differs", dict(base, table=what, sample=smp), "differs from %s.%s: %s" % (smp, suffix, diff)))
+        if set(ids) != union:
+            fails.append(("combined_table_differs", dict(base, table=what), "rows that are no feature of any experiment: %s"
+                          % sorted(set(ids) ^ union)[:4]))
+        ctx.count("pipeline_combined_rows", len(body))
     shutil.rmtree(sub, ignore_errors=True)
     return fails
 
@@ -343,8 +362,10 @@ def run(ctx, d, broken):
         for kind, inp, detail in run_one(ctx, d, seeds[0], strategy, "simple", tie=True, tag="tie"):
             ctx.fail(kind, inp, detail)
         n += 1
-    if not quick:
-        for kind, inp, detail in run_multisample(ctx, d, seeds[0]):
+    # several experiments in one invocation (combined_* tables): three experiments in the quick tier,
+    # two and three in the thorough tier
+    for n_exp, seed in ([(3, seeds[0])] if quick else [(2, seeds[0]), (3, seeds[1]), (3, seeds[2])]):
+        for kind, inp, detail in run_multisample(ctx, d, seed, n_exp):
             ctx.fail(kind, inp, detail)
         n += 1
     ctx.extra["oracle_pipeline_runs"] = n
@@ -353,7 +374,7 @@ def run(ctx, d, broken):
 def replay(ctx, failure, d):
     inp = failure["input"]
     if inp.get("mode") == "pipeline_multisample":
-        return any(k == failure["kind"] for k, _, _ in run_multisample(ctx, d, inp["ds_seed"]))
+        return any(k == failure["kind"] for k, _, _ in run_multisample(ctx, d, inp["ds_seed"], inp.get("n_exp", 2)))
     fl = run_one(ctx, d, inp["ds_seed"], inp["strategy"], inp["norm"], tie=inp.get("tie", False),
                  underscore=inp.get("underscore", False), threads=inp.get("threads", 1), tag="replay")
     return any(k == failure["kind"] for k, _, _ in fl)
